@@ -7,7 +7,7 @@ from comp.rb.check import CASE_NAMES, ROTATING
 
 # rebalancing cases that re-aggregate rotated nodes + the replace_node path: zero hits = coverage rule broken
 REQUIRED = sorted(ROTATING | {3, 4, 30, 31, 32, 40, 41, 42, 43})
-EVENTS = ["max_raised", "max_shrunk", "early_differs", "early_same", "qtyped", "qmut"]
+EVENTS = ["max_raised", "max_shrunk", "early_differs", "early_same", "qtyped", "qmut", "qnested"]
 
 RULE = ("seeded op scripts on frg::interval_tree instantiated with P = uint64_t, int64_t and double (the same histories with endpoints "
         "shifted / scaled: negative, mixed-sign, fractional; the N-endpoint model is compared through an order-isomorphic code) over a node pool (i lo hi id / r id / q lb ub / p x, plus w/a/A: upper(node) "
@@ -33,6 +33,9 @@ ASSUMPTIONS = ["insert only nodes not contained, remove only contained nodes (id
                "node identities of contained elements are pairwise distinct",
                "lower <= upper for every inserted interval (otherwise FRG_ASSERT stops the call: modelled, compared)",
                "endpoints are totally (pre)ordered by <=, < is its strict part (integers, doubles without NaN; NaN endpoints are skipped by harness and driver)",
+               "a query keeps no state in the tree object: for_overlaps is re-entrant, a query started from inside a callback is an independent query "
+               "and does not disturb the outer one (the model is a pure function); the harness runs nested queries (qn / pn) and checks outer and "
+               "inner answers against the brute force and the model",
                "the query bounds are read once, at the call (passed by value): what the callback does to the caller's variables during the traversal "
                "does not change the answer; the harness runs callbacks that coalesce into / advance / trash the variables passed as bounds (qm / pm) "
                "and checks the answer for the ORIGINAL bounds",
@@ -172,7 +175,8 @@ def run(c):
             n = c.rng.choice([4, 5, 5, 6, 7])
             seq = [c.rng.choice(ivs) for _ in range(n)]
             lines = [gen._cfg(n)] + ["i %d %d %d" % (lo, hi, j) for j, (lo, hi) in enumerate(seq)] + qs
-            lines += ["r %d" % c.rng.randrange(n)] + qs
+            nq = ["qn %s %d %d" % (c.rng.choice(["pt", "rg"]), lb, ub) for lb in range(9) for ub in range(lb, 9)] if k % 2 == 0 else []
+            lines += nq + ["r %d" % c.rng.randrange(n)] + qs + nq
             ex.append(("exs-%d" % k, typed(lines)))
         # ... and the enumeration done inside harness and driver (digest of every canonical line, oracle on every script):
         # endpoint universe {0..7}: all sequences of <= 3 intervals (quick) / <= 4 intervals (thorough) x all queries
@@ -190,7 +194,7 @@ def run(c):
     for _, ls in cases:
         c.count("interval_ops", len(ls) - 1)
         for l in ls[1:]:
-            c.count("interval_op_" + {"i": "insert", "r": "remove", "q": "query2", "p": "query1", "qm": "query2_callback_mutates_bounds", "pm": "query1_callback_mutates_bounds", "qt": "query2_other_argument_type", "pt": "query1_other_argument_type", "w": "write_upper", "a": "aggregate_path", "A": "reaggregate"}.get(l.split()[0], "other"))
+            c.count("interval_op_" + {"i": "insert", "r": "remove", "q": "query2", "p": "query1", "qn": "query2_nested_inner_query_in_callback", "pn": "query1_nested_inner_query_in_callback", "qm": "query2_callback_mutates_bounds", "pm": "query1_callback_mutates_bounds", "qt": "query2_other_argument_type", "pt": "query1_other_argument_type", "w": "write_upper", "a": "aggregate_path", "A": "reaggregate"}.get(l.split()[0], "other"))
             if l.split()[0] == "q":
                 w = l.split()
                 if float(w[1]) > float(w[2]):
